@@ -50,8 +50,14 @@ func (s *SymSigner) Sign(r io.Reader, digest []byte, opts crypto.SignerOpts) ([]
 	if Bool("fault.sign." + s.Name) {
 		return nil, errors.New("injected signer fault")
 	}
-	return rsa.SignPKCS1v15(r, s.key, opts.HashFunc(), digest)
+	sig, err := rsa.SignPKCS1v15(r, s.key, opts.HashFunc(), digest)
+	if Bool("sign.slow") {
+		// a slow signer: the wall clock crosses a second boundary while signing
+		time.Sleep(time.Until(time.Now().Truncate(time.Second).Add(1050 * time.Millisecond)))
+	}
+	return sig, err
 }
+
 
 // Cert returns a certificate for the key of signer with the given serial magnitude (big-endian,
 // no leading zero).  Natively it is a real self-signed certificate (so it parses); under the
